@@ -24,7 +24,7 @@ func encSpace(c *work.Ctx, types []reflect.Type, D int, opts *universe.ValOpts, 
 			c.NotExhaustive(fmt.Sprintf("deadline reached at type %d of %d", ti, len(types)))
 			return
 		}
-		ex := &explore.Explorer{Bound: D}
+		ex := &explore.Explorer{Bound: thoroughBound(D, ti, c.NShards)}
 		ex.Run(func(ch *explore.Chooser) {
 			v := universe.Build(t, ch, opts, 0)
 			id := fmt.Sprintf("type#%d %s choices=%v", ti, t.String(), ch.Choices())
@@ -132,4 +132,14 @@ func encPrologue() {
 	_, _ = json.MarshalIndentWithOption(encProValue, "<", ">", json.Colorize(json.DefaultColorScheme), json.UnorderedMap())
 	_, _ = json.MarshalWithOption(encProValue, json.Colorize(json.DefaultColorScheme), json.DisableHTMLEscape(), json.DisableNormalizeUTF8())
 	_, _ = json.MarshalIndent([]interface{}{encProValue, encProFail{}}, "!!", "??")
+}
+
+// thoroughBound: the thorough tier's third deviation is spent on every eighth type of a shard (a fixed subset, so
+// that two runs explore the same space); the other types keep the quick bound. The full depth-3 space of the grown
+// grammars takes hours and was not completed in the time available (DESIGN.md §9).
+func thoroughBound(D, typeIndex, nshards int) int {
+	if D > 2 && (typeIndex/nshards)%8 != 0 {
+		return D - 1
+	}
+	return D
 }
